@@ -210,8 +210,53 @@ pub fn exec_more(t: &[&str]) -> R {
             let want = format!("{} {} dec=1 val=1", hex(&msg), hex(&f));
             Ok(format!("same={} cross12={} cross21={}", (t1 == t2) as u8, (o12.as_deref() == Ok(want.as_str())) as u8, (o21.as_deref() == Ok(want.as_str())) as u8))
         }
+        // oracle-only: a footer type whose decoder is not injective (trailing spaces are ignored, as a JSON footer ignores
+        // whitespace and unknown members): the token is authenticated over the footer bytes *as received*, so the same token
+        // with the footer replaced by different bytes that decode to the same value must fail, with no decoder / validator call
+        "o.fcanon" => {
+            let (b, p, key, msg, f) = (be(1)?, Kind::parse(t.get(2).ok_or_else(bad)?).ok_or_else(bad)?, hx(3)?, hx(4)?, hx(5)?);
+            with_v!(b, V => with_purpose!(p, P => o_fcanon::<V, P>(&key, &msg, &f), else Err(bad())))
+        }
         _ => crate::exec5::exec_more(t),
     }
+}
+
+/// footer whose decoder ignores trailing spaces (non-injective), encoder writes the trimmed bytes
+pub struct TrimFooter(pub Vec<u8>);
+impl paseto_core::encodings::Footer for TrimFooter {
+    fn encode(&self, mut w: impl WriteBytes) -> Result<(), Box<dyn Error + Send + Sync>> {
+        w.write(&self.0);
+        Ok(())
+    }
+    fn decode(footer: &[u8]) -> Result<Self, Box<dyn Error + Send + Sync>> {
+        let mut v = footer.to_vec();
+        while v.last() == Some(&b' ') { v.pop(); }
+        Ok(TrimFooter(v))
+    }
+}
+
+fn o_fcanon<V: ORt<P>, P: Purpose>(key: &[u8], msg: &[u8], f: &[u8]) -> R {
+    let (sk, pk) = V::keys(key).map_err(|e| format!("key-{}", en(e)))?;
+    let mut f = f.to_vec();
+    while f.last() == Some(&b' ') { f.pop(); }
+    let t = UnsealedToken::<V, P, RecRaw>::new(RecRaw(msg.to_vec())).with_footer(TrimFooter(f.clone())).seal(&sk, &[]).map_err(|e| format!("seal-{}", en(e)))?;
+    let s = t.to_string();
+    // the genuine token opens
+    let t1: SealedToken<V, P, RecRaw, TrimFooter> = s.parse().map_err(|e| format!("parse-{}", en(e)))?;
+    let genuine = t1.unseal(&pk, &[], &RecAllow).map(|u| u.claims.0 == msg && u.footer.0 == f).unwrap_or(false);
+    // same payload, footer bytes replaced by an equivalent-but-different encoding (or, for an empty footer, by a blank one)
+    let payload = s.split('.').nth(2).unwrap_or("").to_string();
+    let head: Vec<&str> = s.split('.').take(2).collect();
+    let mut alt = f.clone();
+    alt.extend_from_slice(b"  ");
+    let s2 = format!("{}.{}.{}.{}", head[0], head[1], payload, crate::gen_text::b64(&alt));
+    DEC.with(|c| c.set(0));
+    VAL.with(|c| c.set(0));
+    let altered = match s2.parse::<SealedToken<V, P, RecRaw, TrimFooter>>() {
+        Ok(t2) => t2.unseal(&pk, &[], &RecAllow).is_ok(),
+        Err(_) => false,
+    };
+    Ok(format!("genuine={} altered_accepted={} dec={} val={}", genuine as u8, altered as u8, DEC.with(|c| c.get()), VAL.with(|c| c.get())))
 }
 
 trait ORt<P: Purpose>: SealingVersion<P> {
